@@ -735,6 +735,7 @@ def run(rep, tier):
                    c01_audit.carry_out_rule(rep, fn), c01_audit.shift_range_rule(rep, fn), c01_audit.remainder_hi_rule(rep, fn),
                    c01_audit.capacity_vs_length_rule(rep, fn), c01_audit.tristate_status_rule(rep, fn)]
             nck_ = c01_audit.capacity_kept_rule(rep, fn)
+            n_top = locals().get("n_top", 0) + c01_audit.top_digit_rule(rep, fn)
             if first:
                 n_ck += nck_
             if first:
@@ -785,6 +786,7 @@ def run(rep, tier):
     rep.floor("bn_init / bn_assign_init destinations classified (caller's object vs own temporary)", n_ck, 60)
     rep.floor("Legendre status uses", n_aud[6], 2)
     rep.floor("Euclid inverses (non-default variants)", c01_audit.no_inverse_exit_rule(rep, u0), 2)
+    rep.floor("top-digit reads of functions that accept zero operands", locals().get("n_top", 0), 2)
     c03.reduce_rule(rep, u0, "bn_mod_small")
     rep.floor("high-remainder stores on success paths (first configuration is a portable-divide one)", n_aud[4], 3)
     return driver.finish(
